@@ -26,7 +26,7 @@ def tolerated(case, i, impl, model):
 
 
 def gen_cases(rng, tier):
-    n = 400 if tier == "thorough" else 40
+    n = 400 if tier == "thorough" else 80
     cases = [_hist.gen_history_case(rng, rng.randint(8, 26), refless_script=(i % 5 == 4))
              for i in range(n)]
     # currency declarations and money-converter updates that are rejected
